@@ -14,10 +14,45 @@ B_NOTE = ('Trusted base: CPython, copy.deepcopy of library objects (self-checked
           'every counted transition is a trace step validated against the implementation.')
 
 CHECKS = {
-    'C09': ('exploration', 'bounded-exhaustive enumeration of configurations (FULL/DEV spaces), exception-type oracle', A_NOTE,
+    'C01': ('exploration', 'bounded-exhaustive enumeration of eligibility x constraint configurations; legality judged from raw rows', A_NOTE,
+            'Every eligibility matrix (7 row types + absent) for <=3 geos x constraint subsets, and all <=2/3-deviation configurations for 4-5 geos, '
+            'both searches, every returned design judged against the raw eligibility rows by an independent reference; decides legality for the '
+            'whole bounded space rather than for sampled matrices.', '4 C01'),
+    'C02': ('exploration', 'bounded-exhaustive enumeration; constraints recomputed from raw data (exact rationals on integer bounds) + completeness sub-check', A_NOTE,
+            'Same complete spaces; every returned design re-evaluated against every specified constraint from the raw frame; inclusiveness of integer '
+            'bounds decided by requiring that the exhaustive result contains every reference-feasible design when n_designs >= |feasible set|.', '4 C02'),
+    'C03': ('exploration', 'bounded-exhaustive enumeration + brute-force feasible set per input (optimality oracle)', A_NOTE,
+            'Optimality is a statement about designs NOT returned: per input the whole legal design space is enumerated independently and scored, '
+            'and the returned list is compared with the k best; complete over the bounded configuration spaces x k in {1,2,5,50}.', '4 C03'),
+    'C04': ('exploration', 'bounded-exhaustive enumeration; series bit-exact from the raw frame, closed-form corr/impact, fresh-object verdicts', A_NOTE,
+            'Every position of every result list in the bounded spaces (windows, exclusions, k) is recomputed from the raw input frame.', '4 C04'),
+    'C08': ('model_checking', 'explicit-state BFS to closure over the real diagnostics object (set/clear/read histories) vs fresh object', B_NOTE,
+            'All finite histories over the alphabet are covered because the BFS over full-attribute fingerprints reaches closure; every state and '
+            'every read transition is compared with a freshly built object holding the model series.', '4 C08'),
+    'C09': ('exploration', 'bounded-exhaustive enumeration of configurations (FULL/DEV spaces), exception-type + termination oracle', A_NOTE,
             'Complete enumeration of eligibility x constraint configurations up to the stated bounds (every matrix for <=3 '
             'geos, <=2/3 deviations for 4-5 geos), both searches run on the real code; decides totality for every '
             'configuration in the space, which is where crashes hide (empty ranges, emptied groups).', '4 C09'),
+    'C10': ('model_checking', 'explicit-state BFS to closure over the real matched-markets object (query/search/retrieve histories) vs fresh object', B_NOTE,
+            'Per input, all call histories over 15 public operations are covered by closure of the BFS on the real object; each answer is compared '
+            'with a fresh object, search_results with the last search, parameters and caller frames with their initial values.', '4 C10'),
+    'C11': ('exploration', 'complete enumeration of eligibility matrices x size/ratio settings; three-way count agreement', A_NOTE,
+            'All 7^G matrices for G<=3|4 and all class-count vectors for G=5|6; fast count = real generators = independent reference enumeration.', '4 C11'),
+    'C12': ('exploration', 'bounded-exhaustive base cases x 12 metamorphic presentations', A_NOTE,
+            'Every base configuration of the deviation-bounded spaces is re-run under all listed presentations; exact transformations (powers of two).', '4 C12'),
+    'C13': ('exploration', 'bounded-exhaustive enumeration; greedy vs exhaustive vs brute-force feasible set on identical inputs', A_NOTE,
+            'Both searches run on every configuration of the bounded spaces without budget/share; greedy designs must lie in the enumerated feasible set and not beat its best.', '4 C13'),
+    'C14': ('model_checking', 'explicit-state BFS to closure over the real HeapDict (push/read histories) + exhaustive search-space check of order/cap', B_NOTE,
+            'The bounded container has a finite layout space: BFS reaches closure for capacities 0..3 over 2 keys x 5 items (incl. equal-but-distinguishable), '
+            'so all push sequences over the alphabet are covered; order/cap of results checked on every search of the bounded configuration space.', '4 C14'),
+    'C15': ('exploration', 'complete enumeration of cell patterns, eligibility tables and geo-index orders (incl. pairs of successive assignments)', A_NOTE,
+            'Every present/absent cell pattern for small frames, every eligibility table over {absent+7 types}^3 with/without foreign geos, every ordered index subset.', '4 C15'),
+    'C16': ('exploration', 'complete enumeration of tables over the eight rows, malformed variants, all ordered subsets', A_NOTE,
+            'All 8^n tables (n<=3|4) and all ordered subsets including the empty one against a reference partition.', '4 C16'),
+    'C17': ('exploration', 'complete boundary grid per field and all field pairs on a reduced grid vs a three-valued domain predicate', A_NOTE,
+            'Acceptance is decided on every grid point (bounds, float neighbours, specials, wrong types) and for every pair of fields.', '4 C17'),
+    'C20': ('exploration', 'complete enumeration of all lists of <=2|3 entries over 44 entries + malformed embeddings vs date-ordinal reference', A_NOTE,
+            'Every list over the entry alphabet up to the length bound, so every order/duplication/overlap pattern at that length is covered.', '4 C20'),
 }
 
 
